@@ -236,6 +236,21 @@ func (w *World) stepWithdraw(a withdrawArgs, r *Rand) string {
 		if !ok && a.Variant == "" {
 			return "skip:not-processing"
 		}
+		if a.Variant == "finalize-unvoted-header" {
+			// the relayer claims a payout is confirmed under a header it made up for a voted height:
+			// a two-leaf tree whose second leaf is the (possibly never mined) candidate
+			vt := w.votedTip()
+			rb := w.Btc.Blocks[vt]
+			if rb == nil || len(p.Txs) == 0 {
+				return "skip:no-voted-block"
+			}
+			txid := p.Txs[len(p.Txs)-1].Txid
+			sib := sha([]byte(fmt.Sprintf("fake-sibling-%d", a.Arg)))
+			hdr := append([]byte{}, rb.Header...)
+			copy(hdr[36:68], dsha(append(append([]byte{}, sib...), txid...)))
+			msg := &bitcointypes.MsgFinalizeWithdrawal{Proposer: cv.Proposer.Addr(), Pid: pid, Txid: txid, BlockNumber: vt, TxIndex: 1, IntermediateProof: sib, BlockHeader: hdr}
+			return w.sendMsgs([]sdk.Msg{msg}, nil, "finalize/"+a.Variant, false, nil, TxOpts{})
+		}
 		if p.Mined < 0 {
 			return "skip:not-mined"
 		}
@@ -254,11 +269,6 @@ func (w *World) stepWithdraw(a withdrawArgs, r *Rand) string {
 			msg.Txid = blk.Txs[0].Txid
 			msg.IntermediateProof = blk.proof(0)
 			msg.TxIndex = 1 << uint(blk.depth())
-		case "finalize-unvoted-header":
-			hdr := append([]byte{}, blk.Header...)
-			copy(hdr[36:68], msg.Txid)
-			msg.BlockHeader = hdr
-			msg.IntermediateProof = r.Bytes(32)
 		case "finalize-wrong-proof":
 			msg.IntermediateProof = r.Bytes(len(msg.IntermediateProof))
 		case "finalize-other-candidate":
@@ -476,6 +486,11 @@ func (w *World) genBadWithdrawStep(r *Rand, sub uint64) (Step, bool) {
 			return Step{}, false
 		}
 		return mkStep("rel.badwithdraw", withdrawArgs{Action: "replace", Payout: r.Intn(len(w.Btc.Payouts)), Variant: v, Arg: r.Intn(5)}, sub), true
+	case "finalize-unvoted-header":
+		if len(live) == 0 {
+			return Step{}, false
+		}
+		return mkStep("rel.badwithdraw", withdrawArgs{Action: "finalize", Payout: pick(r, live), Variant: v, Cand: -1, Arg: r.Intn(5)}, sub), true
 	case "finalize-twice":
 		if len(done) == 0 {
 			return Step{}, false
@@ -500,7 +515,15 @@ func (w *World) genBridgeOps(r *Rand) []*ELOp {
 	}
 	var ops []*ELOp
 	n := 1 + r.Intn(3)
+	if w.Cfg.Bursts && r.Chance(0.08) {
+		n = 9 + r.Intn(20) // more than the 8 paid/refunded withdrawals handed over per block
+	}
+	burstUnpayable := n > 3 && r.Chance(0.5)
 	for i := 0; i < n; i++ {
+		if burstUnpayable && !w.Cfg.FaultFree {
+			ops = append(ops, &ELOp{Kind: "withdraw", Addr: w.Btc.userAddress(r, pick(r, []string{"p2pk", "foreign"})), U1: uint64(20000 + r.Intn(1000000)), U2: uint64(1 + r.Intn(60)), Guards: true})
+			continue
+		}
 		switch k := r.Intn(100); {
 		case k < 60 || len(pendingIDs) == 0:
 			kind := pick(r, payableKinds)
